@@ -3,6 +3,7 @@ CONSTANTS
   W = 6
   MaxDepth = 2
   Bound = 256
+  Dense = TRUE
 VIEW View
 INVARIANT Exactness
 INVARIANT StepOK
